@@ -172,10 +172,11 @@ def run_hist(histories, tag, go_bin, want_model=True):
             i = load.index(min(load)); shards[i].append(t); load[i] += len(t)
         procs = []
         drv = os.path.join(ROOT, "ocaml", "driver")
+        me = os.getpid()     # shard files are private to this run
         for i, sh_texts in enumerate(shards):
-            with open("%s.%d" % (mp, i), "w") as f:
+            with open("%s.%d.%d" % (mp, me, i), "w") as f:
                 f.write("".join(sh_texts))
-            procs.append(subprocess.Popen("%s < %s.%d > %s.ml.%d" % (drv, mp, i, hp, i), shell=True, stdout=subprocess.PIPE, stderr=subprocess.STDOUT))
+            procs.append(subprocess.Popen("%s < %s.%d.%d > %s.ml.%d.%d" % (drv, mp, me, i, hp, me, i), shell=True, stdout=subprocess.PIPE, stderr=subprocess.STDOUT))
         ml = {}
         for i, pr in enumerate(procs):
             try:
@@ -186,9 +187,9 @@ def run_hist(histories, tag, go_bin, want_model=True):
                 raise RuntimeError("model driver timed out on shard %d of %d (%d bytes of histories)" % (i, nsh, size))
             if pr.returncode:
                 raise RuntimeError("model driver failed: " + out.decode("latin-1")[-2000:])
-            ml.update(lib.read_obs("%s.ml.%d" % (hp, i)))
+            ml.update(lib.read_obs("%s.ml.%d.%d" % (hp, me, i)))
         for i in range(nsh):
-            for q in ("%s.%d" % (mp, i), "%s.ml.%d" % (hp, i)):
+            for q in ("%s.%d.%d" % (mp, me, i), "%s.ml.%d.%d" % (hp, me, i)):
                 try:
                     os.remove(q)
                 except OSError:
